@@ -26,6 +26,15 @@ u8* _ZNKSt7__cxx1112basic_stringIcSt11char_traitsIcESaIcEE4dataEv(u8* s) { retur
 u64 _ZNKSt7__cxx1112basic_stringIcSt11char_traitsIcESaIcEE4sizeEv(u8* s) { return GS(s)->len; }
 u64 _ZNKSt7__cxx1112basic_stringIcSt11char_traitsIcESaIcEE6lengthEv(u8* s) { return GS(s)->len; }
 u8 _ZNKSt7__cxx1112basic_stringIcSt11char_traitsIcESaIcEE5emptyEv(u8* s) { return GS(s)->len == 0; }
+/* searching and slicing (ghost strings alias their source, so a substring is a sub-range) */
+u64 _ZNKSt7__cxx1112basic_stringIcSt11char_traitsIcESaIcEE4findEcm(u8* s, u8 c, u64 pos) { for (u64 i = pos; i < GS(s)->len; i++) if (GS(s)->p[i] == c) return i; return ~(u64)0; }
+u64 _ZNKSt7__cxx1112basic_stringIcSt11char_traitsIcESaIcEE13find_first_ofEcm(u8* s, u8 c, u64 pos) { for (u64 i = pos; i < GS(s)->len; i++) if (GS(s)->p[i] == c) return i; return ~(u64)0; }
+void _ZNKSt7__cxx1112basic_stringIcSt11char_traitsIcESaIcEE6substrEmm(u8* ret, u8* s, u64 pos, u64 n) {
+  if (pos > GS(s)->len) { _ZSt24__throw_out_of_range_fmtPKcz(0); return; }
+  u64 rem = GS(s)->len - pos; GS(ret)->p = GS(s)->p + pos; GS(ret)->len = n < rem ? n : rem; }
+u8* _ZNSt7__cxx1112basic_stringIcSt11char_traitsIcESaIcEEaSEPKc(u8* s, u8* lit) { u64 n = 0; while (lit[n]) n++; GS(s)->p = lit; GS(s)->len = n; return s; }
 static int gs_eq_lit(u8* s, const char* lit) { u64 n = 0; while (lit[n]) n++; if (GS(s)->len != n) return 0; for (u64 i = 0; i < n; i++) if (GS(s)->p[i] != (u8)lit[i]) return 0; return 1; }
+u8 _ZSteqIcSt11char_traitsIcESaIcEEbRKNSt7__cxx1112basic_stringIT_T0_T1_EEPKS5_(u8* s, u8* lit) { return gs_eq_lit(s, (const char*)lit); }
+void _ZStplIcSt11char_traitsIcESaIcEENSt7__cxx1112basic_stringIT_T0_T1_EEPKS5_RKS8_(u8* ret, u8* lit, u8* s) { (void)lit; GS(ret)->p = GS(s)->p; GS(ret)->len = GS(s)->len; /* error-message formatting: content irrelevant */ }
 #endif
 #endif
